@@ -441,7 +441,7 @@ def one(rep, prog, cfg):
                       co.loc(co.blocks[defs[0]]["ts"]),
                       "after receive() reported a clean close (Ok(None)) %s %s: the loop must stop there" % (
                           fn_name(prog, co), "still performs a connection operation" if more else "can return Ok and continue"))
-    rep.floor("C08.close-terminal", cfg + "/receive results whose clean-close outcome is followed", n_none, 3)
+    rep.floor("C08.close-terminal", cfg + "/receive results whose clean-close outcome is followed", n_none, 2)
     # the event receiver is optional (the user may drop ConnectionEvents): the Result of an event send must not steer the
     # loop — otherwise a dropped receiver ends the loop and the queued / in-flight request is answered with ConnectionClosed
     n_ev = 0
